@@ -345,7 +345,9 @@ def gramSchmidOrth( A, alignVec=None ):
         curVec = A[ :, i ]
         normCurVec = np.linalg.norm( curVec )
         normAlignVec = np.linalg.norm( alignVec )
-        if np.isclose( abs( np.dot( curVec, alignVec ) ) / ( normCurVec * normAlignVec ), 1.0 ):
+        # ( only a numerically exact multiple counts: a nearly parallel but independent
+        #   column is handled by the orthogonalisation itself )
+        if abs( np.dot( curVec, alignVec ) ) / ( normCurVec * normAlignVec ) >= 1.0 - 1e-12:
             # alignVec replaces the i-th column: keep the other columns after it
             B[ :, 1: ] = np.delete( A, i, axis=1 )
     
